@@ -88,7 +88,7 @@ def enum_tseitin(tier):
         n = g['n']
         for ch in itertools.product([0, 1], repeat=n):
             c = dict(g)
-            c['as'] = 'networkx' if (i + sum(ch)) % 4 == 0 else 'cnfgen'
+            c['as'] = gg.SIMPLE_ROT[(i + sum(ch)) % len(gg.SIMPLE_ROT)]
             yield {'graph': c, 'charges': [bool(x) for x in ch], 'cls': 'OPB' if (i + sum(ch)) % 2 else 'CNF'}
         c = dict(g)
         c['as'] = 'cnfgen'
@@ -177,7 +177,7 @@ def enum_kcolor(tier):
                 continue
             for fun in (True, False):
                 c = dict(g)
-                c['as'] = 'networkx' if (i + k) % 4 == 0 else 'cnfgen'
+                c['as'] = gg.SIMPLE_ROT[(i + k) % len(gg.SIMPLE_ROT)]
                 yield {'graph': c, 'k': k, 'functional': fun, 'cls': 'OPB' if (i + k + fun) % 2 else 'CNF'}
 
 
@@ -239,7 +239,7 @@ def enum_evencolor(tier):
         if any(d % 2 for d in deg) and i % 7:
             continue        # keep only a seventh of the rejected graphs
         c = dict(g)
-        c['as'] = ('networkx', 'cnfgen', 'cnfgen-grown', 'cnfgen', 'networkx-rev')[i % 5]
+        c['as'] = gg.SIMPLE_ROT[(i) % len(gg.SIMPLE_ROT)]
         yield {'graph': c, 'cls': 'OPB' if i % 2 else 'CNF'}
 
 
@@ -309,7 +309,7 @@ def enum_domset(tier):
                 continue
             for alt in (False, True):
                 c = dict(g)
-                c['as'] = 'networkx' if (i + d) % 4 == 0 else 'cnfgen'
+                c['as'] = gg.SIMPLE_ROT[(i + d) % len(gg.SIMPLE_ROT)]
                 yield {'graph': c, 'd': d, 'alternative': alt, 'cls': 'OPB' if (i + d + alt) % 2 else 'CNF'}
 
 
@@ -353,7 +353,7 @@ def enum_tiling(tier):
     nmax = 5 if tier == 'quick' else 6
     for i, g in enumerate(gg.all_simple_graphs(nmax)):
         c = dict(g)
-        c['as'] = ('networkx', 'cnfgen', 'cnfgen-grown', 'cnfgen', 'networkx-rev')[i % 5]
+        c['as'] = gg.SIMPLE_ROT[(i) % len(gg.SIMPLE_ROT)]
         yield {'graph': c, 'cls': 'OPB' if i % 2 else 'CNF'}
 
 
@@ -429,7 +429,7 @@ def enum_iso(tier):
             for nontriv in (False, True):
                 i += 1
                 a, b = dict(g1), dict(g2)
-                a['as'] = b['as'] = 'networkx' if i % 4 == 0 else 'cnfgen'
+                a['as'] = b['as'] = gg.SIMPLE_ROT[i % len(gg.SIMPLE_ROT)]
                 yield {'g1': a, 'g2': b, 'nontrivial': nontriv, 'cls': 'OPB' if i % 2 else 'CNF'}
 
 
@@ -472,7 +472,7 @@ def run_auto(case):
 def enum_auto(tier):
     for i, g in enumerate(gg.all_simple_graphs(4)):
         c = dict(g)
-        c['as'] = ('networkx', 'cnfgen', 'cnfgen-grown', 'cnfgen', 'networkx-rev')[i % 5]
+        c['as'] = gg.SIMPLE_ROT[(i) % len(gg.SIMPLE_ROT)]
         yield {'graph': c, 'cls': 'OPB' if i % 2 else 'CNF'}
 
 
@@ -551,7 +551,7 @@ def enum_subgraph(tier):
                     if tier == 'quick' and g['n'] == 4 and i % 3:
                         continue
                     a, b = dict(g), dict(h)
-                    a['as'] = b['as'] = 'networkx' if i % 5 == 0 else 'cnfgen'
+                    a['as'] = b['as'] = gg.SIMPLE_ROT[i % len(gg.SIMPLE_ROT)]
                     yield {'G': a, 'H': b, 'induced': induced, 'symbreak': symbreak, 'cls': 'OPB' if i % 2 else 'CNF'}
 
 
@@ -615,7 +615,7 @@ def enum_clique(tier):
                     continue
                 for symbreak in (True, False):
                     c = dict(g)
-                    c['as'] = 'networkx' if (i + k) % 5 == 0 else 'cnfgen'
+                    c['as'] = gg.SIMPLE_ROT[(i + k) % len(gg.SIMPLE_ROT)]
                     yield {'graph': c, 'k': k, 'symbreak': symbreak, 'binary': binary,
                            'cls': 'OPB' if (i + k + symbreak) % 2 else 'CNF'}
 
@@ -665,7 +665,7 @@ def enum_ramlb(tier):
                     continue
                 for symbreak in (True, False):
                     c = dict(g)
-                    c['as'] = 'networkx' if (i + k) % 5 == 0 else 'cnfgen'
+                    c['as'] = gg.SIMPLE_ROT[(i + k) % len(gg.SIMPLE_ROT)]
                     yield {'graph': c, 'k': k, 's': s, 'symbreak': symbreak,
                            'cls': 'OPB' if (i + k + s) % 2 else 'CNF'}
 
@@ -1014,3 +1014,10 @@ from vlib import after as _after   # noqa: E402
 SUBCHECKS.append(_after.make(SUBCHECKS, inner=['tseitin', 'kcolor', 'evencolor', 'domset', 'tiling', 'iso', 'subgraph', 'clique', 'ramlb'],
                              as_prefix=['tseitin', 'kcolor', 'clique', 'iso'],
                              required_labels=['after:cli', 'after:complete', 'after:case', 'then:tseitin', 'then:clique', 'then:kcolor']))
+
+# ---------------------------------------------------------------------------
+# the same cases with the formula built by the command line tools
+
+from vlib import viacli as _viacli   # noqa: E402
+
+SUBCHECKS.append(_viacli.make(SUBCHECKS, inner=['tseitin', 'kcolor', 'evencolor', 'domset', 'tiling', 'iso', 'auto', 'subgraph', 'clique', 'ramlb'], required_labels=['built-by-tool', 'via:cnfgen', 'via:pbgen']))
